@@ -123,6 +123,45 @@ Theorem choose_pairwise_compatible : forall all max ni l1 p l2 q,
 Proof. exact choose_pairwise_stmt. Qed.
 Print Assumptions choose_pairwise_compatible.
 
+(* ---- MatchVuln with the depth and severity filters modelled (only CVSS parsing and the choice of
+   the applicable affected[] entry stay recorded answers) *)
+(* the walk over parent edges finds exactly the nodes with a path of at most k proper edges *)
+Theorem up_iff_path : forall edges n k m, In m (up k edges n) <-> upto edges k m n.
+Proof. exact up_iff_path_lemma. Qed.
+Print Assumptions up_iff_path.
+
+(* matchDepth: off for MaxDepth <= 0; otherwise some affected node has the root within MaxDepth
+   proper edges - or has no path from the root at all (the zero-value distance 0 is then compared) *)
+Theorem match_depth_iff : forall maxd numnodes edges nodes,
+  (Z.to_nat maxd <= numnodes)%nat ->
+  (match_depth maxd numnodes edges nodes = true <->
+   (maxd <= 0)%Z \/
+   exists n, In n nodes /\ (upto edges (Z.to_nat maxd) 0 n \/ (forall k, (k <= numnodes)%nat -> ~ upto edges k 0 n))).
+Proof. exact match_depth_iff_lemma. Qed.
+Print Assumptions match_depth_iff.
+
+(* matchSeverity: no selected severity parses, or one reaches the threshold (tenths) *)
+Theorem match_severity_iff : forall thr top aff,
+  match_severity thr top aff = true <->
+  (forall s, In s (selected_scores top aff) -> s = None) \/
+  (exists x, In (Some x) (selected_scores top aff) /\ (thr <= x)%Z).
+Proof. exact match_severity_iff_lemma. Qed.
+Print Assumptions match_severity_iff.
+
+Theorem match_vuln_characterised : forall o th numnodes edges g,
+  (Z.to_nat (th_depth th) <= numnodes)%nat ->
+  (match_vuln_full o th numnodes edges g = true <->
+   (~ In (g_id g) (o_ignore o) /\ (forall a, In a (g_aliases g) -> ~ In a (o_ignore o))) /\
+   (o_explicit o = [] \/ In (g_id g) (o_explicit o)) /\
+   (o_dev_deps o = true \/ g_dev_only g = false) /\
+   ((forall s, In s (selected_scores (g_top g) (g_aff g)) -> s = None) \/
+    (exists x, In (Some x) (selected_scores (g_top g) (g_aff g)) /\ (th_sev th <= x)%Z)) /\
+   ((th_depth th <= 0)%Z \/
+    exists n, In n (g_nodes g) /\
+      (upto edges (Z.to_nat (th_depth th)) 0 n \/ (forall k, (k <= numnodes)%nat -> ~ upto edges k 0 n)))).
+Proof. exact match_vuln_full_iff_lemma. Qed.
+Print Assumptions match_vuln_characterised.
+
 (* ------------------------------------------------------------------ non-vacuity *)
 (* the concrete world of Proofs.v (package 1 at version 1 has vulnerability 10, version 2 has
    vulnerability 20; one candidate: version 2) meets every premise of reanalysis_matches_report
@@ -191,3 +230,17 @@ Example unactionable_example :
   map (fun e => (o_id e, o_unactionable e)) (compute_vulns_result (m_vulns ex_old) [ex_patch 1 10 11 [5] []])
   = [(5, false); (7, true)].
 Proof. vm_compute. split; reflexivity. Qed.
+
+(* depth and severity filters on a diamond 0 -> 1 -> 3, 0 -> 2 -> 3, 3 -> 4, with a self edge on 4 and
+   an unreachable node 5: distances 2, 3 and (unreachable) 0; thresholds in tenths *)
+Definition ex_edges : list edge := [(0, 1); (0, 2); (1, 3); (2, 3); (3, 4); (4, 4); (6, 5)].
+Example depth_example :
+  (map (root_dist 7 ex_edges) [1; 3; 4; 5],
+   map (fun d => match_depth d 7 ex_edges [4]) [0; 1; 2; 3; 4]%Z, match_depth 1 7 ex_edges [4; 1], match_depth 1 7 ex_edges [5])
+  = ([1; 2; 3; 0]%Z, [true; false; false; true; true], true, true).
+Proof. vm_compute. reflexivity. Qed.
+Example severity_example :
+  (match_severity 50 [Some 98; None]%Z [], match_severity 99 [Some 98; Some 46]%Z [], match_severity 98 [] [None; Some 98]%Z,
+   match_severity 99 [None] [Some 100]%Z, match_severity 10 [] [])
+  = (true, false, true, true, true).
+Proof. vm_compute. reflexivity. Qed.
